@@ -602,6 +602,12 @@ def _skipped_formula(gen, formula):
                 return resolve(ds[0], depth + 1)
         return e
     f = resolve(formula)
+    # counting LINES instead of records: len() of the line lists, while the line list also holds service lines (break-by markers)
+    lens = [c for c in ast.walk(f) if isinstance(c, ast.Call) and call_name(c) == "len" and c.args and norm(c.args[0]) in ("table_lines", "first_lines", "last_lines")]
+    if lens:
+        recs = [l for l in gen.body if isinstance(l, ast.For) and norm(l.iter) == "self.records"]
+        extra = [c for l in recs for c in ast.walk(l) if isinstance(c, ast.Call) and call_name(c) == "append" and norm(c.func.value) == "table_lines" and norm(c.args[0]) != norm(l.target)]
+        return False if extra else None
     if not (isinstance(f, ast.BinOp) and isinstance(f.op, ast.Sub)):
         return None
     total, shown = resolve(f.left), resolve(f.right)
